@@ -39,6 +39,16 @@ def gen_jobs(ctx):
                 jobs.append(("shim.full_reduce", [enc_arr(r)], "num"))
             else:
                 jobs.append(("shim.reduce_pseudo_inverse", [enc_arr(r)], "exact"))     # must raise the same exception type
+            if n <= 3:
+                # genuinely degree-elevated nets (rounded to binary64: the same doubles go to both configurations): the
+                # discrete outcome of full_reduce (how far it reduces) must agree; nets not starting at the origin
+                import oracle_q as oq
+                el = [list(x) for x in r]
+                for _k in range(rng.randint(1, 4 - n) if n < 4 else 0):
+                    el = [oq.elevate(x) for x in el]
+                el = [[F(float(v)) for v in x] for x in el]
+                jobs.append(("shim.full_reduce", [enc_arr(el)], "num"))
+                jobs.append(("shim.reduce_pseudo_inverse", [enc_arr(el)], "num"))
             r2 = rows(rng, n, 2)
             jobs.append(("shim.bbox", [enc_arr(r2)], "exact"))
             jobs.append(("shim.contains_nd", [enc_arr(r2), enc_vec([F(rng.randint(-8, 8), 4), F(rng.randint(-8, 8), 4)])], "exact"))
